@@ -177,8 +177,43 @@ type problem struct {
 	detail map[string]any
 }
 
+// problem records a finding; within one world only the first case of a key is kept (the rest is counted).
 func (w *world) problem(key string, detail map[string]any) {
+	for i := range w.problems {
+		if w.problems[i].key == key {
+			n, _ := w.problems[i].detail["further_questions_same_class"].(int)
+			w.problems[i].detail["further_questions_same_class"] = n + 1
+			return
+		}
+	}
+	if detail == nil {
+		detail = map[string]any{}
+	}
 	w.problems = append(w.problems, problem{key, detail})
+}
+
+// family groups the Reader questions by the index they go through, so that a violation key names a defect class.
+func family(q string) string {
+	n := qName(q)
+	switch {
+	case strings.HasPrefix(n, "StateAtBlockHash"):
+		return "state-by-hash"
+	case strings.HasPrefix(n, "StateAtBlockNumber"):
+		return "state-by-number"
+	case strings.HasPrefix(n, "HeadState"):
+		return "head-state"
+	case strings.HasPrefix(n, "Events"):
+		return "event-query"
+	case n == "BlockByHash" || n == "BlockHeaderByHash" || n == "BlockNumberByHash" || n == "StateUpdateByHash":
+		return "block-hash-lookup"
+	case n == "TransactionByHash" || n == "Receipt" || n == "BlockNumberAndIndexByTxHash" || n == "L1HandlerTxnHash":
+		return "tx-hash-lookup"
+	case n == "BlockHeaderByNumber" || n == "BlockHeaderHashByNumber" || n == "GlobalStateRootByBlockNumber":
+		return "header-by-number"
+	case n == "Height" || n == "Head" || n == "HeadsHeader" || n == "L1Head":
+		return "head"
+	}
+	return "block-data-by-number"
 }
 
 func prunerOpts(cfg config, onPrune func(pruneRec), onErr func(error)) []pruner.Option {
@@ -198,7 +233,7 @@ func prunerOpts(cfg config, onPrune func(pruneRec), onErr func(error)) []pruner.
 // openPruningNode wires Blockchain + RetentionFloor the way node.New / node.Run do for --prune-mode.
 func openPruningNode(d db.KeyValueStore, newState bool) (*blockchain.Blockchain, *pruner.RetentionFloor, error) {
 	fl := &pruner.RetentionFloor{}
-	bc := blockchain.New(d, chain.Net, blockchain.WithNewState(newState), blockchain.WithRetentionFloor(fl),
+	bc := blockchain.New(fastStore{d}, chain.Net, blockchain.WithNewState(newState), blockchain.WithRetentionFloor(fl),
 		blockchain.WithRunningEventFilterInitializer(pruner.InitializeRunningEventFilter))
 	return bc, fl, fl.Seed(d)
 }
@@ -220,7 +255,7 @@ func newWorld(cfg config, b *base) *world {
 	w.cancel, w.done = cancel, make(chan error, 1)
 	go func() { w.done <- w.pr.Run(ctx) }()
 	w.twinDB = b.img.Copy()
-	w.twin = chain.NewNode(w.twinDB, cfg.NewState)
+	w.twin = chain.NewNode(fastStore{w.twinDB}, cfg.NewState)
 	w.canon = append(w.canon, b.entries...)
 	w.all = append(w.all, b.entries...)
 	synctest.Wait()
@@ -581,7 +616,7 @@ func (w *world) compare(tag string, a, b *obs, blockFloor, stateFloor uint64, st
 			for k, v := range ctx {
 				d[k] = v
 			}
-			w.problem(fmt.Sprintf("%s: %s %s %s%s", tag, rel, qName(x.Q), bad, backend(w.cfg.NewState)), d)
+			w.problem(fmt.Sprintf("%s: %s %s %s%s", tag, rel, family(x.Q), bad, backend(w.cfg.NewState)), d)
 		}
 	}
 }
